@@ -663,3 +663,44 @@ def const_fold_reachable(body):
                 continue
         work.extend(body.succ(b))
     return seen
+
+
+# ---------------------------------------------------------------------------
+# named constants
+# ---------------------------------------------------------------------------
+
+def named_consts_of(facts, body, local, flow=None):
+    """def paths of the named `const` items the value of `local` may come from (through copies,
+    references and promoted constants)"""
+    flow = flow or Flow(body)
+    out = set()
+    back = flow.backward([local])
+    for _b, _j, s in body.assigns():
+        if s['lhs']['l'] not in back:
+            continue
+        for o in rv_operands(s['rv']):
+            c = op_const(o)
+            if not c or 'uneval' not in c:
+                continue
+            if 'promoted' in c:
+                pb = facts.bodies.get('%s::{promoted#%d}' % (body.defp, c['promoted']))
+                if pb is None:
+                    # promoted of the root item
+                    for k, v in facts.bodies.items():
+                        if k.endswith('::{promoted#%d}' % c['promoted']) and strip_generics(k).startswith(strip_generics(c['uneval'])):
+                            pb = v
+                if pb is not None:
+                    for _b2, _j2, s2 in pb.assigns():
+                        for o2 in rv_operands(s2['rv']):
+                            c2 = op_const(o2)
+                            if c2 and 'uneval' in c2 and 'promoted' not in c2:
+                                out.add(strip_generics(c2['uneval']))
+            else:
+                out.add(strip_generics(c['uneval']))
+    for _b, t in body.calls():
+        if t['dest']['l'] in back:
+            for a in t['args']:
+                c = op_const(a)
+                if c and 'uneval' in c and 'promoted' not in c:
+                    out.add(strip_generics(c['uneval']))
+    return out
